@@ -1,4 +1,4 @@
--- PINNED by bin/pin_tables: copy of Gen/Dispatch.lean as generated from /repo at 36172fa — regenerate, do not edit
+-- PINNED by bin/pin_tables: copy of Gen/Dispatch.lean as generated from /repo at dee58c0 — regenerate, do not edit
 namespace Ggql.Pinned
 def dispatchOrder : List String := ["resolver", "any", "reflect"]
 def opFallbackAnyName : Bool := false
@@ -56,6 +56,6 @@ def argSkeleton : List (String × String) := [
   ("Root.replaceArgVars", "8e6170986780"),
   ("Root.resolveField", "d8dcc1486960"),
   ("Root.resolveReflect", "15757bc1bc70"),
-  ("checkReflectArgs", "bebacba2a1e6")
+  ("checkReflectArgs", "3e548d39715f")
 ]
 end Ggql.Pinned
